@@ -163,6 +163,12 @@ func (c *Class) Evaluation(
 	nextFrame := c.getNextFrame(ctx)
 	class := nextT.ToString()
 
+	// `class Outer::` - a name with an empty component is no name (and would
+	// put the record separator into the editor records)
+	if strings.HasSuffix(class, "::") || strings.Contains(class, ":::") {
+		return fmt.Errorf("syntax error: '%s' is not a class name", class)
+	}
+
 	if nextT.IsNameSpaceIdentifier() {
 		frame, parentClass, klass := base.SeparateNameSpaces(nextT.ToString())
 		calculatedFrame := base.CalculateFrame(frame, parentClass)
